@@ -36,50 +36,48 @@ Definition hex_upper_val (c : N) : option N :=
 Fixpoint pct_decode (s : str) : option (list N) :=
   match s with
   | [] => Some []
-  | 37 :: r =>
-      match r with
-      | h :: l :: r' =>
-          match hex_upper_val h, hex_upper_val l, pct_decode r' with
-          | Some a, Some b, Some t => Some ((a * 16 + b) :: t)
-          | _, _, _ => None
-          end
-      | _ => None
-      end
-  | c :: r => match pct_decode r with Some t => Some (c :: t) | None => None end
+  | c :: r =>
+      if c =? 37 then
+        match r with
+        | h :: l :: r' =>
+            match hex_upper_val h, hex_upper_val l, pct_decode r' with
+            | Some a, Some b, Some t => Some ((a * 16 + b) :: t)
+            | _, _, _ => None
+            end
+        | _ => None
+        end
+      else match pct_decode r with Some t => Some (c :: t) | None => None end
   end.
 
-(* UTF-8 decoder for well-formed input produced by utf8_encode (no validation beyond lengths) *)
-Fixpoint utf8_decode (fuel : nat) (b : list N) : option str :=
-  match fuel with
-  | O => match b with [] => Some [] | _ => None end
-  | S f =>
-      match b with
-      | [] => Some []
-      | b0 :: r =>
-          if b0 <? 128 then option_map (cons b0) (utf8_decode f r)
-          else if b0 <? 224 then
-            match r with
-            | b1 :: r' => option_map (cons ((b0 - 192) * 64 + (b1 - 128))) (utf8_decode f r')
-            | _ => None
-            end
-          else if b0 <? 240 then
-            match r with
-            | b1 :: b2 :: r' =>
-                option_map (cons ((b0 - 224) * 4096 + (b1 - 128) * 64 + (b2 - 128))) (utf8_decode f r')
-            | _ => None
-            end
-          else
-            match r with
-            | b1 :: b2 :: b3 :: r' =>
-                option_map (cons ((b0 - 240) * 262144 + (b1 - 128) * 4096 + (b2 - 128) * 64 + (b3 - 128)))
-                           (utf8_decode f r')
-            | _ => None
-            end
-      end
+(* UTF-8 decoder for the output of utf8_encode (lengths are checked, continuation bytes are not
+   validated) *)
+Fixpoint utf8_decode (b : list N) : option str :=
+  match b with
+  | [] => Some []
+  | b0 :: r =>
+      if b0 <? 128 then option_map (cons b0) (utf8_decode r)
+      else if b0 <? 224 then
+        match r with
+        | b1 :: r' => option_map (cons ((b0 - 192) * 64 + (b1 - 128))) (utf8_decode r')
+        | _ => None
+        end
+      else if b0 <? 240 then
+        match r with
+        | b1 :: b2 :: r' =>
+            option_map (cons ((b0 - 224) * 4096 + (b1 - 128) * 64 + (b2 - 128))) (utf8_decode r')
+        | _ => None
+        end
+      else
+        match r with
+        | b1 :: b2 :: b3 :: r' =>
+            option_map (cons ((b0 - 240) * 262144 + (b1 - 128) * 4096 + (b2 - 128) * 64 + (b3 - 128)))
+                       (utf8_decode r')
+        | _ => None
+        end
   end.
 
 Definition url_decode (s : str) : option str :=
   match pct_decode s with
-  | Some b => utf8_decode (length b) b
+  | Some b => utf8_decode b
   | None => None
   end.
